@@ -234,6 +234,9 @@ Definition pred_events (double : bool) (k : nat) (sp : list (list Z)) (i : nat) 
   let s := nth i sp [] in
   [Predict PA (prev1 k i) s; Predict PY1 (pyj double k i) s; Predict PY0 (pyj double k i) s].
 
+Definition log_of (double : bool) (k : nat) (sp : list (list Z)) : list event :=
+  fits RA sp ++ fits RY sp ++ flat_map (pred_events double k sp) (seq 0 k).
+
 Lemma combine_maps {A B C} (f : A -> B) (g : A -> C) (l : list A) :
   combine l (combine (map f l) (map g l)) = map (fun i => (i, (f i, g i))) l.
 Proof. induction l as [|a l IH]; simpl; [reflexivity | rewrite IH; reflexivity]. Qed.
@@ -243,7 +246,7 @@ Proof. induction l as [|a l IH]; simpl; [reflexivity | rewrite IH; reflexivity].
 
 Lemma schedule_closed double k sp :
   min_splits double <= k -> length sp = k ->
-  schedule double k sp = Some (fits RA sp ++ fits RY sp ++ flat_map (pred_events double k sp) (seq 0 k)).
+  schedule double k sp = Some (log_of double k sp).
 Proof.
   intros Hk Hl. unfold schedule.
   assert (Hc : combine (seq 0 k) (combine (pairing_exposure k) (pairing_outcome double k)) =
@@ -304,8 +307,11 @@ Lemma pred_ids_preds p double k sp l :
   pred_ids p (flat_map (pred_events double k sp) l) = flat_map (fun i => nth i sp []) l.
 Proof.
   induction l as [|i l IH]; [reflexivity|].
-  simpl flat_map at 2. rewrite <- IH. simpl flat_map. rewrite !pred_ids_app. f_equal.
-  destruct p; simpl; rewrite ?app_nil_r; reflexivity.
+  change (flat_map (pred_events double k sp) (i :: l))
+    with (pred_events double k sp i ++ flat_map (pred_events double k sp) l).
+  rewrite pred_ids_app, IH.
+  change (flat_map (fun i0 => nth i0 sp []) (i :: l)) with (nth i sp [] ++ flat_map (fun i0 => nth i0 sp []) l).
+  f_equal. unfold pred_events. destruct p; simpl; rewrite ?app_nil_r; reflexivity.
 Qed.
 Lemma nth_seq_all {A} (l : list A) d : map (fun i => nth i l d) (seq 0 (length l)) = l.
 Proof.
@@ -313,37 +319,34 @@ Proof.
   rewrite <- seq_shift, map_map. exact IH.
 Qed.
 
-Section Log.
-  Variables (double : bool) (k : nat) (sp : list (list Z)).
-  Hypothesis Hk : min_splits double <= k.
-  Hypothesis Hl : length sp = k.
-  Let evs := fits RA sp ++ fits RY sp ++ flat_map (pred_events double k sp) (seq 0 k).
+Lemma fits_no_predict r p j ids sp : forall off, ~ In (Predict p j ids) (fits_from r off sp).
+Proof.
+  induction sp as [|s t IH]; simpl; intros off H; [exact H|].
+  destruct H as [H|H]; [discriminate | exact (IH _ H)].
+Qed.
 
-  Lemma log_pred_ids p : pred_ids p evs = concat sp.
-  Proof.
-    unfold evs, fits. rewrite !pred_ids_app, !pred_ids_fits, pred_ids_preds. simpl.
-    rewrite flat_map_concat_map. rewrite <- Hl, nth_seq_all. reflexivity.
-  Qed.
-  Lemma log_fit_sets r j : j < k -> fit_sets r j evs = [nth j sp []].
-  Proof.
-    intros Hj. unfold evs, fits. rewrite !fit_sets_app, !fit_sets_fits, fit_sets_preds, Hl.
-    simpl. rewrite Nat.sub_0_r. destruct (Nat.ltb_spec j k); [|lia].
-    destruct r; simpl; reflexivity.
-  Qed.
-  Lemma log_predict_inv p j ids :
-    In (Predict p j ids) evs ->
-    exists i, i < k /\ ids = nth i sp [] /\ j = (match p with PA => prev1 k i | _ => pyj double k i end).
-  Proof.
-    unfold evs, fits. rewrite !in_app_iff. intros [H|[H|H]].
-    - exfalso. revert H. generalize 0. induction sp as [|s t IH]; simpl; intros off H; [exact H|].
-      destruct H as [H|H]; [discriminate | exact (IH _ H)].
-    - exfalso. revert H. generalize 0. induction sp as [|s t IH]; simpl; intros off H; [exact H|].
-      destruct H as [H|H]; [discriminate | exact (IH _ H)].
-    - apply in_flat_map in H. destruct H as [i [Hi H]]. apply in_seq in Hi. exists i. split; [lia|].
-      unfold pred_events in H. simpl in H.
-      destruct H as [H|[H|[H|[]]]]; inversion H; subst; split; reflexivity.
-  Qed.
-End Log.
+Lemma log_pred_ids double k sp p : length sp = k -> pred_ids p (log_of double k sp) = concat sp.
+Proof.
+  intros Hl. unfold log_of, fits. rewrite !pred_ids_app, !pred_ids_fits, pred_ids_preds. simpl.
+  rewrite flat_map_concat_map. rewrite <- Hl, nth_seq_all. reflexivity.
+Qed.
+Lemma log_fit_sets double k sp r j : length sp = k -> j < k -> fit_sets r j (log_of double k sp) = [nth j sp []].
+Proof.
+  intros Hl Hj. unfold log_of, fits. rewrite !fit_sets_app, !fit_sets_fits, fit_sets_preds, Hl.
+  simpl. rewrite Nat.sub_0_r. destruct (Nat.ltb_spec j k); [|lia].
+  destruct r; simpl; reflexivity.
+Qed.
+Lemma log_predict_inv double k sp p j ids :
+  In (Predict p j ids) (log_of double k sp) ->
+  exists i, i < k /\ ids = nth i sp [] /\ j = (match p with PA => prev1 k i | _ => pyj double k i end).
+Proof.
+  unfold log_of, fits. rewrite !in_app_iff. intros [H|[H|H]].
+  - exfalso. exact (fits_no_predict _ _ _ _ _ _ H).
+  - exfalso. exact (fits_no_predict _ _ _ _ _ _ H).
+  - apply in_flat_map in H. destruct H as [i [Hi H]]. apply in_seq in Hi. exists i. split; [lia|].
+    unfold pred_events in H. simpl in H.
+    destruct H as [H|[H|[H|[]]]]; inversion H; subst; split; reflexivity.
+Qed.
 
 (* ------------------------------------------------------------------ no leak *)
 Theorem schedule_no_leak double k sp rows evs :
@@ -352,15 +355,15 @@ Theorem schedule_no_leak double k sp rows evs :
 Proof.
   intros Hk Hl Hn Hp Hs. rewrite (schedule_closed double k sp Hk Hl) in Hs. inversion Hs; subst evs; clear Hs.
   intros x Hx p. split.
-  - rewrite (log_pred_ids double k sp Hl). apply zcount_NoDup; [exact Hn|].
+  - rewrite (log_pred_ids double k sp p Hl). apply zcount_NoDup; [exact Hn|].
     apply (Permutation_in _ (Permutation_sym Hp)). exact Hx.
   - intros j ids Hin Hxi.
     destruct (log_predict_inv double k sp p j ids Hin) as [i [Hi [-> Hj]]].
     destruct (pyj_facts double k i Hk Hi) as [A1 [A2 [A3 [A4 _]]]].
     assert (Hjk : j < k /\ j <> i) by (destruct p; subst j; split; assumption).
     exists (nth j sp []). split.
-    + apply log_fit_sets; tauto.
-    + intro Hc. apply (NoDup_concat_disjoint sp Hn i j x); [intro; subst; tauto | exact Hxi | exact Hc].
+    + apply log_fit_sets; [exact Hl | tauto].
+    + intro Hc. apply (NoDup_concat_disjoint sp Hn i j x); [intro E; apply (proj2 Hjk); symmetry; exact E | exact Hxi | exact Hc].
 Qed.
 
 Theorem schedule_double_sep k sp evs :
@@ -375,11 +378,11 @@ Proof.
   subst i'.
   assert (Hjy' : jy = pyj true k i) by (destruct p; [congruence | exact Hjy | exact Hjy]).
   destruct (pyj_facts true k i Hk Hi) as [A1 [A2 [A3 [A4 A5]]]].
-  assert (Hne : ja <> jy) by (subst; apply A5; reflexivity).
+  assert (Hne : ja <> jy) by (rewrite Hja, Hjy'; apply A5; reflexivity).
   split; [exact Hne|].
   intros ta ty Hta Hty z Hza Hzy.
-  rewrite (log_fit_sets true k sp Hl RA ja) in Hta by (subst; exact A1).
-  rewrite (log_fit_sets true k sp Hl RY jy) in Hty by (subst; exact A2).
+  rewrite (log_fit_sets true k sp RA ja Hl) in Hta by (rewrite Hja; exact A1).
+  rewrite (log_fit_sets true k sp RY jy Hl) in Hty by (rewrite Hjy'; exact A2).
   destruct Hta as [<-|[]]. destruct Hty as [<-|[]].
   exact (NoDup_concat_disjoint sp Hn ja jy z Hne Hza Hzy).
 Qed.
@@ -418,7 +421,8 @@ Proof.
   intros HP Hnd Hk. unfold crossfit_fit. apply Forall_forall. intros re Hin.
   apply in_map_iff in Hin. destruct Hin as [seed [<- _]].
   destruct (no_leak double (pick_of seed) rows k (HP seed) Hnd Hk) as [sp [evs [H1 [H2 [H3 H4]]]]].
-  exists sp, evs. simpl. rewrite H1. simpl. repeat split; assumption.
+  exists sp, evs. simpl. rewrite H1. simpl.
+  split; [reflexivity|]. split; [exact H2|]. split; [exact H3|]. split; [exact H4 | reflexivity].
 Qed.
 
 (* ------------------------------------------------------------------ soundness of the executable specification *)
@@ -464,4 +468,14 @@ Proof.
   rewrite andb_true_iff, negb_true_iff, Nat.eqb_neq, forallb_forall in H'. destruct H' as [Hne Hf].
   split; [exact Hne|]. intros ta ty Hta Hty. specialize (Hf _ Hta). rewrite forallb_forall in Hf.
   specialize (Hf _ Hty). apply disjoint_b_spec. exact Hf.
+Qed.
+
+(* ------------------------------------------------------------------ a concrete sampler within the contract (non-vacuity) *)
+Definition pick_first (rem : list Z) (m : nat) : list Z := firstn m rem.
+Lemma pick_first_spec : PickSpec pick_first.
+Proof.
+  intros rem m Hnd Hm. unfold pick_first. repeat split.
+  - rewrite <- (firstn_skipn m rem) in Hnd. apply NoDup_app_inv in Hnd. tauto.
+  - intros x Hx. rewrite <- (firstn_skipn m rem). apply in_or_app. left. exact Hx.
+  - apply firstn_length_le. exact Hm.
 Qed.
